@@ -4,8 +4,8 @@
            gen/GenSimdConst.v, regenerated from simd/x86_64/*.asm on every run)
    c_*   : the C code of src/*.c (constants regenerated from the C files). *)
 From Coq Require Import List ZArith String Bool.
-From LJT Require Import lib.Words gen.GenSimdConst model.SimdColor model.SimdSample model.SimdQuant model.SimdDct model.SimdRows
-  proofs.SimdColorProofs proofs.SimdSampleProofs proofs.SimdQuantProofs proofs.SimdConstProofs proofs.SimdDctProofs proofs.SimdRowsProofs.
+From LJT Require Import lib.Words gen.GenSimdConst model.SimdColor model.SimdSample model.SimdQuant model.SimdDct model.SimdIdctFast model.SimdFdctInt model.SimdRows
+  proofs.SimdColorProofs proofs.SimdSampleProofs proofs.SimdQuantProofs proofs.SimdConstProofs proofs.SimdDctProofs proofs.SimdIdctFastProofs proofs.SimdFdctIntProofs proofs.SimdRowsProofs.
 Import ListNotations.
 Local Open Scope Z_scope.
 
@@ -163,6 +163,22 @@ Theorem C05_fdct_ifast_eq_partial : forall blk, List.length blk = 64%nat -> c_wr
 Proof. exact fdct_ifast_eq_partial. Qed.
 Print Assumptions C05_fdct_ifast_eq_partial.
 
+(* (7) fast inverse DCT (jidctfst): for ALL coefficient blocks and multiplier tables inside the boundary
+   c_idct_ifast_ok -- dequantised coefficients and workspace values fit a short, every MULTIPLY operand has magnitude
+   < 8192, results within [-16384, 16383] (linear part of the range-limit table) -- the kernel equals jpeg_idct_ifast
+   incl. its zero-AC shortcuts, psraw/packsswb/paddb = range_limit[(x >> 5) & RANGE_MASK].  Outside: findings
+   ifast-operand-ge-8192 / idct-out-of-range-coefficients. *)
+Theorem C05_idct_ifast_eq_partial : forall coef q, List.length coef = 64%nat -> List.length q = 64%nat ->
+  c_idct_ifast_ok coef q = true -> asm_idct_ifast coef q = c_idct_ifast coef q.
+Proof. exact idct_ifast_eq_partial. Qed.
+Print Assumptions C05_idct_ifast_eq_partial.
+(* (8) accurate forward DCT (jfdctint): for ALL blocks inside c_fdct_islow_ok (every 16-bit lane value of the C
+   computation -- pmaddwd operands, rounded pass-2 sums, packed results -- fits a short) the kernel equals jpeg_fdct_islow *)
+Theorem C05_fdct_islow_eq_partial : forall blk, List.length blk = 64%nat -> c_fdct_islow_ok blk = true ->
+  asm_fdct_islow blk = c_fdct_islow blk.
+Proof. exact fdct_islow_eq_partial. Qed.
+Print Assumptions C05_fdct_islow_eq_partial.
+
 (* non-vacuity *)
 Example C05_rgb_ycc_nonvacuous :
   asm_rgb_ycc jccolor_sse2_consts 255 0 0 = (76, 85, 255) /\ c_rgb_ycc 255 0 0 = (76, 85, 255) /\
@@ -179,3 +195,15 @@ Example C05_quant_int16_min_differs :
   s16 (asm_quantize_sse2 (q_recip q) (q_corr q) (q_scale q) (w16 (-32768))) = -4096 /\
   s16 (asm_quantize_avx2 (q_recip q) (q_corr q) (q_scale q) (w16 (-32768))) = -4096.
 Proof. exact quant_int16_min_differs. Qed.
+Example C05_idct_ifast_nonvacuous :
+  let coef := [240; -31; 12; 0; 5; 0; 0; 0;  17; 9; 0; 0; 0; 0; 0; 0;  -8; 0; 3; 0; 0; 0; 0; 0] ++ repeat 0 40 in
+  let q := map (fun i => 4 * (2 + i mod 7)) (map Z.of_nat (seq 0 64)) in
+  c_idct_ifast_ok coef q = true /\ asm_idct_ifast coef q = c_idct_ifast coef q /\
+  c_idct_ifast_ok (100 :: repeat 0 63) (repeat 400 64) = false /\
+  asm_idct_ifast (100 :: repeat 0 63) (repeat 400 64) <> c_idct_ifast (100 :: repeat 0 63) (repeat 400 64).
+Proof. exact idct_ifast_nonvacuous. Qed.
+Example C05_fdct_islow_nonvacuous :
+  c_fdct_islow_ok stripes = true /\ asm_fdct_islow stripes = c_fdct_islow stripes /\
+  c_fdct_islow_ok (repeat 127 64) = true /\ c_fdct_islow_ok (repeat (-128) 64) = true /\
+  c_fdct_islow_ok (repeat 8000 64) = false /\ asm_fdct_islow (repeat 8000 64) <> c_fdct_islow (repeat 8000 64).
+Proof. exact fdct_islow_nonvacuous. Qed.
